@@ -1,6 +1,7 @@
 import Clikit.Lemmas.ParserInv
 import Clikit.Lemmas.Spelling
 import Clikit.Lemmas.Realign
+import Clikit.Lemmas.ParserWF
 /-!
 # C02 - malformed command lines are rejected with the documented errors and only those
 
@@ -208,5 +209,153 @@ example : FmtWF cv0 fmt1 :=
   { argNames := by decide
     optModes := by intro o ho; simp [fmt1] at ho; subst ho; simp
     defaults := by intro o ho; simp [fmt1] at ho; subst ho; simp }
+
+/-! ## The hypotheses about the format are decided by the model on every real format
+
+`FmtWF`, `LongOK`, `MultiLast` and the distinctness of the argument keys are facts about the format
+object the REAL builder produced.  The executable checks `fmtWFB`, `allLongOKB` (Model/ParserWF.lean)
+and `multiLastB` (Model/Parser.lean) decide them; the driver evaluates the checks on every flattened
+format of the correspondence (entry `c02.wf`) and the harness compares the answers with `true`, so a
+built format violating one of them is reported as a disagreement.  The corollaries below restate the
+theorems with the decided form of the hypotheses. -/
+
+/-- **The checks decide the hypotheses.** -/
+theorem wf_decides (cv : Conv) (f : Fmt) :
+    (fmtWFB cv f = true ↔ FmtWF cv f) ∧ (allLongOKB f = true ↔ ∀ o ∈ f.opts, LongOK f o) ∧
+    (multiLastB f.fargs = true ↔ MultiLast f.fargs) :=
+  ⟨fmtWFB_iff cv f, allLongOKB_iff f, multiLastB_iff _⟩
+
+/-- the options spelled by their short names in a well-formed prefix (`ShortOK` inside `Spells`):
+a format that passes `allLongOKB` and `allShortOKB` finds every option under its one-character short name -/
+theorem wf_short_names (f : Fmt) (hl : allLongOKB f = true) (hs : allShortOKB f = true) :
+    ∀ o ∈ f.opts, ∀ s, o.short = some s → ∃ c, s = [c] ∧ ShortOK f o c :=
+  allShortOKB_sound f hl hs
+
+/-- distinct argument names give distinct keys of the flattened format (pseudo-arguments included) -/
+theorem wf_keys_nodup (cv : Conv) (f : Fmt) (hwf : fmtWFB cv f = true) : (f.fargs.map (·.key)).Nodup :=
+  fargs_nodup ((fmtWFB_iff cv f).mp hwf).argNames
+
+/-- `no_foreign_exception` with the decided hypothesis -/
+theorem no_foreign_exception_decided (cv : Conv) (f : Fmt) (hwf : fmtWFB cv f = true) (lenient : Bool)
+    (toks : List Str) :
+    (∃ a, parse cv f lenient toks = .ok a) ∨ parse cv f lenient toks = .error .cannotParse
+      ∨ parse cv f lenient toks = .error .noSuchOption ∨ parse cv f lenient toks = .error .valueError :=
+  no_foreign_exception cv f ((fmtWFB_iff cv f).mp hwf) lenient toks
+
+/-- `lenient_only_value_error` with the decided hypothesis -/
+theorem lenient_only_value_error_decided (cv : Conv) (f : Fmt) (hwf : fmtWFB cv f = true) (toks : List Str) :
+    (∃ a, parse cv f true toks = .ok a) ∨ parse cv f true toks = .error .valueError :=
+  lenient_only_value_error cv f ((fmtWFB_iff cv f).mp hwf) toks
+
+/-- `fault_value_for_flag` for ANY flag of a format that passes the check -/
+theorem fault_value_for_flag_decided (cv : Conv) (f : Fmt) (hok : allLongOKB f = true) (len : Bool)
+    {toks rest : List Str} {sems : List Sem} (o : Opt) (ho : o ∈ f.opts) (v : Str) (hflag : o.accepts = false)
+    (hp : SpellsPrefix f ((dd ++ o.long ++ '=' :: v) :: rest) toks sems) (σ' : St)
+    (hrun : runSems f len sems St.empty = .ok σ') :
+    parse cv f len (toks ++ (dd ++ o.long ++ '=' :: v) :: rest) =
+      if len then (finish cv f true σ').1 else .error .cannotParse :=
+  fault_value_for_flag cv f len o v ((allLongOKB_iff f).mp hok o ho) hflag hp σ' hrun
+
+/-- `fault_required_value_missing` for ANY required-value option of a format that passes the check -/
+theorem fault_required_value_missing_decided (cv : Conv) (f : Fmt) (hok : allLongOKB f = true) (len : Bool)
+    {toks rest : List Str} {sems : List Sem} (o : Opt) (ho : o ∈ f.opts) (hreq : o.valReq = true)
+    (hstop : stopsValue rest = true) (hp : SpellsPrefix f ((dd ++ o.long) :: rest) toks sems) (σ' : St)
+    (hrun : runSems f len sems St.empty = .ok σ') :
+    parse cv f len (toks ++ (dd ++ o.long) :: rest) =
+      if len then (finish cv f true σ').1 else .error .cannotParse :=
+  fault_required_value_missing cv f len o ((allLongOKB_iff f).mp hok o ho) hreq hstop hp σ' hrun
+
+/-- `fault_surplus_positional` with the decided hypotheses (the distinct keys follow from `fmtWFB`) -/
+theorem fault_surplus_positional_decided (cv : Conv) (f : Fmt) (hwf : fmtWFB cv f = true)
+    (hml : multiLastB f.fargs = true) {toks rest : List Str} {sems : List Sem} (t : Str) (ht : posLike t = true)
+    (hp : SpellsPrefix f (t :: rest) toks sems) (σ' : St)
+    (hrun : runSems f false sems St.empty = .ok σ')
+    (hfull : fits ((posVals sems).length + 1) f.fargs = false) :
+    parse cv f false (toks ++ t :: rest) = .error .cannotParse :=
+  fault_surplus_positional cv f ((multiLastB_iff _).mp hml) (wf_keys_nodup cv f hwf) t ht hp σ' hrun hfull
+
+/-! ## Non-vacuity of every theorem above that has hypotheses
+
+`fmt2`: one required argument `a`, a flag `--foo`/`-f`, a required-value option `--bar`/`-b`, an
+optional-value INTEGER option `--num` with default `3`.  Each example discharges ALL hypotheses of the
+theorem it applies on a concrete line. -/
+def oFoo : Opt := { long := "foo".toList, short := some "f".toList, accepts := false, valReq := false,
+                    valOpt := false, multi := false, ty := .string, nullable := false, default := .scalar .none }
+def oBar : Opt := { long := "bar".toList, short := some "b".toList, accepts := true, valReq := true,
+                    valOpt := false, multi := false, ty := .string, nullable := false, default := .scalar .none }
+def oNum : Opt := { long := "num".toList, short := none, accepts := true, valReq := false,
+                    valOpt := true, multi := false, ty := .integer, nullable := false, default := .scalar (.int 3) }
+def fmt2 : Fmt :=
+  { cmds := [], args := [{ name := "a".toList, required := true, multi := false, ty := .string,
+                            nullable := false, default := .scalar .none }],
+    opts := [oFoo, oBar, oNum] }
+
+/-- the prefix `x` of the faulty lines below, and the state it leaves -/
+def σx : St := { args := [(.real "a".toList, .one (.tok "x".toList))], opts := [] }
+theorem prefix_x (next : List Str) : SpellsPrefix fmt2 next ["x".toList] [.pos "x".toList] :=
+  SpellsPrefix.cons (toks' := []) (sems' := []) (.pos rfl) .nil
+
+/-- all decided hypotheses hold for `fmt2` (evaluated by the kernel) -/
+theorem fmt2_wf : fmtWFB cv0 fmt2 = true ∧ allLongOKB fmt2 = true ∧ multiLastB fmt2.fargs = true := by decide
+example : ∃ c, "f".toList = [c] ∧ ShortOK fmt2 oFoo c :=
+  wf_short_names fmt2 fmt2_wf.2.1 (by decide) oFoo (by decide) _ rfl
+
+example : FmtWF cv0 fmt2 := (wf_decides cv0 fmt2).1.mp fmt2_wf.1
+
+/-- `errors_classified` / `strict_ok_lenient_same`: their hypothesis is an equation that holds here -/
+example : (false = false ∧ (Err.noSuchOption = .cannotParse ∨ Err.noSuchOption = .noSuchOption)) ∨
+    Err.noSuchOption = .valueError ∨ Err.noSuchOption = .noSuchArgument ∨ ∃ t, Err.noSuchOption = .other t :=
+  errors_classified cv0 fmt2 false ["--nope".toList] .noSuchOption rfl
+def argsXF : Args :=
+  { args := [("a".toList, .scalar (.str "x".toList))], opts := [("foo".toList, .scalar (.bool true))] }
+example : parse cv0 fmt2 true ["x".toList, "-f".toList] = .ok argsXF :=
+  strict_ok_lenient_same cv0 fmt2 ["x".toList, "-f".toList] argsXF rfl
+
+/-- `no_foreign_exception_decided` / `lenient_only_value_error_decided` on a line that fails to convert -/
+example : (∃ a, parse cv0 fmt2 true ["x".toList, "--num=zz".toList] = .ok a) ∨
+    parse cv0 fmt2 true ["x".toList, "--num=zz".toList] = .error .valueError :=
+  lenient_only_value_error_decided cv0 fmt2 fmt2_wf.1 _
+example : parse cv0 fmt2 true ["x".toList, "--num=zz".toList] = .error .valueError := rfl
+
+/-- `parse_of_loop_error` -/
+example : parse cv0 fmt2 false ["x".toList, "--nope".toList] = .error .noSuchOption := by
+  simpa using parse_of_loop_error cv0 fmt2 false ["x".toList, "--nope".toList] .noSuchOption σx rfl (Or.inr rfl)
+
+/-- `fault_unknown_long`: `x --nope` -/
+example : parse cv0 fmt2 false ["x".toList, "--nope".toList] = .error .noSuchOption := by
+  simpa using fault_unknown_long cv0 fmt2 false "nope".toList (by decide) rfl rfl (prefix_x _) σx rfl
+
+/-- ... and lenient mode continues from the state before the fault -/
+example : parse cv0 fmt2 true ["x".toList, "--nope".toList] = (finish cv0 fmt2 true σx).1 := by
+  simpa using fault_unknown_long cv0 fmt2 true "nope".toList (by decide) rfl rfl (prefix_x _) σx rfl
+
+/-- `fault_unknown_short`: `x -Yq` -/
+example : parse cv0 fmt2 false ["x".toList, "-Yq".toList] = .error .noSuchOption := by
+  simpa using fault_unknown_short cv0 fmt2 false 'Y' "q".toList (by decide) rfl (prefix_x _) σx rfl
+
+/-- `fault_value_for_flag_decided`: `x --foo=v` -/
+example : parse cv0 fmt2 false ["x".toList, "--foo=v".toList] = .error .cannotParse :=
+  fault_value_for_flag_decided cv0 fmt2 fmt2_wf.2.1 false oFoo (by decide) "v".toList rfl (prefix_x _) σx rfl
+
+/-- `fault_required_value_missing_decided`: `x --bar` at the end of the line -/
+example : parse cv0 fmt2 false ["x".toList, "--bar".toList] = .error .cannotParse :=
+  fault_required_value_missing_decided cv0 fmt2 fmt2_wf.2.1 false oBar (by decide) rfl rfl (prefix_x _) σx rfl
+
+/-- `fault_surplus_positional_decided`: `x y` on a format with one argument -/
+example : parse cv0 fmt2 false ["x".toList, "y".toList] = .error .cannotParse := by
+  simpa using fault_surplus_positional_decided cv0 fmt2 fmt2_wf.1 fmt2_wf.2.2 "y".toList rfl
+    (prefix_x _) σx rfl (by decide)
+
+/-- `fault_missing_required`: the empty line leaves the required argument `a` without a value -/
+example : (finish cv0 fmt2 false St.empty).1 = .error .cannotParse :=
+  fault_missing_required cv0 fmt2 St.empty St.empty rfl (by decide)
+
+/-- a format the check REJECTS: a float default on an INTEGER optional-value option is outside the
+model (`int(2.5)`), and the rejection is not vacuous caution - the model does answer with its
+foreign error there -/
+def fmtBad : Fmt := { fmt2 with opts := [{ oNum with default := .scalar (.float "2.5".toList) }] }
+example : fmtWFB cv0 fmtBad = false := by decide
+example : parse cv0 fmtBad false ["x".toList, "--num".toList]
+    = .error (.other "float-input-to-int-not-modelled") := rfl
 
 end Clikit.Props.C02
